@@ -20,6 +20,7 @@ partial def tyOf (x : Sexp) : Ty :=
   | .list (.atom "st" :: fs) =>
     .struct (Fields.ofList (fs.map (fun f => match args f with
       | [n, ex, em, pk, t] => ({ name := sOf n, exported := asBool ex, embedded := asBool em, pkg := sOf pk }, tyOf t)
+      | [n, ex, em, pk, t, tg] => ({ name := sOf n, exported := asBool ex, embedded := asBool em, pkg := sOf pk, tag := sOf tg }, tyOf t)
       | _ => (default, .opaque .unknown []))))
   | .list [.atom "o", .atom k, s] => .opaque (okindOf k) (sOf s)
   | .list (.atom "fn" :: s :: _) => .opaque .func (sOf s)
